@@ -712,7 +712,8 @@ pub fn worker_c19(ctx: &WorkerCtx) -> WorkerOut {
         t.extend(c14_long_traces(true).into_iter().filter(|x| x.len() <= 21).step_by(if q { 3 } else { 1 }));
         sp.traces = Arc::new(t);
     }
-    let delays = [0, 2 * US];
+    // delays chosen against the blocking durations {1,2,5} us: 3D < B < 4D, B < D, B > 4D all occur
+    let delays = [0, 300, 600, 1500, 2 * US];
     let all: Vec<u16> = (0..sp.lib.len() as u16).collect();
     let mut sets: Vec<(Vec<u16>, Vec<u16>)> = vec![(vec![], vec![])];
     for (k, i) in all.iter().enumerate() {
@@ -727,6 +728,23 @@ pub fn worker_c19(ctx: &WorkerCtx) -> WorkerOut {
             }
         }
     }
+    // every set also with a randomised gadget added on the client or the server, so that the seed matters
+    let qs: Vec<u16> = (0..sp.lib.len() as u16).filter(|i| sp.lib[*i as usize].kind == 'q').collect();
+    let mut with_q = vec![];
+    for (k, (c, s2)) in sets.iter().enumerate().step_by(if q { 5 } else { 2 }) {
+        let g = qs[k % qs.len()];
+        let mut c2 = c.clone();
+        let mut s3 = s2.clone();
+        if k % 2 == 0 { c2.push(g) } else { s3.push(g) }
+        with_q.push((c2, s3));
+    }
+    for g in &qs {
+        for h in &qs {
+            with_q.push((vec![*g], vec![*h]));
+            with_q.push((vec![*g, *h], vec![]));
+        }
+    }
+    sets.extend(with_q);
     let basep = product(&sp, sets, &delays, &[0, 1], &[true, false], &[0]);
     let base: Vec<Job> = (0..basep.len()).map(|i| basep.job(i)).collect();
     let pps_menu: [Option<usize>; 8] = [None, Some(1), Some(2), Some(10), Some(1000), Some(u32::MAX as usize), Some(1usize << 32), Some(usize::MAX)];
@@ -746,19 +764,19 @@ pub fn worker_c19(ctx: &WorkerCtx) -> WorkerOut {
         k.only_net = (g / 16) % 2 == 1;
         k.max_len = [0usize, 1, 5][(g / 32) % 3];
         k.max_iter = [1usize, 7, 120][(i / 96) % 3];
-        k.seed = (i as u64 / 7) % 3;
+        k.seed = [0u64, 1, u64::MAX, 7][(i / 7) % 4];
         jobs.push(k);
         if i % 4 == 0 {
             // the plain unfiltered run with an explicit pps limit
             let mut u = j.clone();
             u.pps = pps_menu[(i / 4) % 8];
-            u.seed = (i as u64) % 3;
+            u.seed = [0u64, u64::MAX, 1][i % 3];
             jobs.push(u);
         }
     }
     let b = bounds(&sp, jobs.len(), &delays);
     let res = run_jobs("C19", jobs.len(), &|i| Some(sp.build(&jobs[i])), &judge_c19, ctx);
-    finish("C19", res, "one job = one closed system x packets-per-second limit {none,1,2,10,1000,2^32-1,2^32,usize::MAX} x max_trace_length {0,1,5} x max_sim_iterations {1,7,120} x both continue settings x all four filter combinations x seeds {0,1,2}; oracle: no panic, two runs on clones of the same queue identical, filtered outputs equal the projection (prefix under a length cap) of the unfiltered trace, stop bounds respected, time ordered. distinct_nontrivial = distinct output traces containing padding, blocking or timers", b, 1000, ctx, vec![ASSUME.into()])
+    finish("C19", res, "one job = one closed system x packets-per-second limit {none,1,2,10,1000,2^32-1,2^32,usize::MAX} x max_trace_length {0,1,5} x max_sim_iterations {1,7,120} x both continue settings x all four filter combinations x seeds {0, 1, 7, u64::MAX} (client seed s, server seed s+1 wrapping); oracle: no panic, two runs on clones of the same queue identical, filtered outputs equal the projection (prefix under a length cap) of the unfiltered trace, stop bounds respected, time ordered. distinct_nontrivial = distinct output traces containing padding, blocking or timers", b, 1000, ctx, vec![ASSUME.into()])
 }
 
 pub fn replay(v: &Value) -> Result<Option<String>, String> {
@@ -795,6 +813,16 @@ pub fn replay(v: &Value) -> Result<Option<String>, String> {
             };
             println!("  {}   -> {:?}", ev_string(e), acts.unwrap_or_default());
         }
+    }
+    if prop == "C19" {
+        // the property is reproducibility itself: a system whose behaviour differs from run to run may pass
+        // one judgement and fail the next, so any failing judgement out of four confirms the report
+        for _ in 0..4 {
+            if let Some(v) = run1().first() {
+                return Ok(Some(format!("{}: {}", v.sig, v.msg)));
+            }
+        }
+        return Ok(None);
     }
     let a = run1();
     let b = run1();
